@@ -72,7 +72,10 @@ EndTape == /\ pc \in {"gap", "idle"} /\ (pc = "idle" => N = 0)
               Set(DropTailEdge(s))
            /\ pc' = "done" /\ UNCHANGED <<tape, fe, gpol, k, st>>
 
-Next == \/ \E b \in Alphabet : Load(b)
+\* (one action guarded from outside: TLC would otherwise make one action per block of the alphabet and try each
+\* of them in every state)
+LoadAny == pc = "idle" /\ N < MaxBlocks /\ \E b \in Alphabet : Load(b)
+Next == \/ LoadAny
         \/ AdjustP \/ ToneStep \/ AdjustD \/ DataBitStep \/ TailStep \/ MarkStep \/ PauseStep \/ EndTape
 
 Spec == Init /\ [][Next]_vars
